@@ -49,7 +49,8 @@ def extent_spec(draw, tier="quick", kind=None, layer=0, capacity=None, allow_com
         )
         if compressed:
             spec.update(embedded_lba=draw(st.sampled_from([True, True, False])), footer=draw(st.sampled_from([True, True, False])),
-                        cmix=draw(st.integers(0, 4)), zlevel=draw(st.sampled_from([6, 6, 1, 0, 9])), version=3)
+                        cmix=draw(st.integers(0, 4)), zlevel=draw(st.sampled_from([6, 6, 1, 0, 9])),
+                        version=draw(st.sampled_from([3, 3, 1, 2])))  # the 1.1 format document describes compressed extents with version 1
             grain = min(grain, 256)
             if draw(st.integers(0, 2)) == 0:
                 # deflate streams sized around the 512-byte sector boundaries of header + data
